@@ -2,14 +2,13 @@
 M-LANG, constant folding (C30): expression AST, run-time evaluator, mirror of the folder rules.
 
 Mirrors (bugs included)
-  * compile/ast/folder.go   Folder.Unary/Binary/Trinary/In/Nary, commutative, foldMul (without
-                            reciprocal operands), foldCat, ckMath
+  * compile/ast/folder.go   Folder.Unary/Binary/Trinary/In/Nary, commutative, foldMul, foldCat, ckMath
   * compile/codegen.go      evaluation order of unary/binary/nary/and-or/in/trinary
   * core/ops.go             OpAdd … OpBitNot, OpNot, OpBool, OpUnaryPlus/Minus, OpCat on the
                             boolean / integer / string fragment (ToInt/ToDnum: "" and false are 0)
 
-Not mirrored (the generator of the correspondence suite stays outside): division and reciprocal
-operands of `*`, shifts, `=~`, dates/objects, foldRanges (`x > a and x < b` → InRange),
+Not mirrored (the generator of the correspondence suite stays outside): inexact division (the
+reciprocal operands of `*` are mirrored with an abstract `Arith.div`), shifts, `=~`, dates/objects, foldRanges (`x > a and x < b` → InRange),
 foldOrToIn (`x is a or x is b` → in), `set.Unique` on `in` lists (pointer identity, a no-op for
 freshly parsed operands), Folder.Call.
 
@@ -32,8 +31,12 @@ inductive Val where
 structure Arith where
   add : Int → Int → Int
   mul : Int → Int → Int
+  div : Int → Int → Int
 
-def exactA : Arith := ⟨fun a b => a + b, fun a b => a * b⟩
+/-- exact integers; division only where it is exact (the int fast path of OpDiv), otherwise the
+value is outside the replayed fragment (the suite does not replay such lines) -/
+def exactA : Arith :=
+  ⟨fun a b => a + b, fun a b => a * b, fun a b => if b ≠ 0 ∧ a % b = 0 then a / b else 0⟩
 
 /-- 16-digit decimal addition restricted to numbers with at most one fractional digit, in units
 of 1/10: mirrors `dnum.Add`/`align` for |larger| < 10^16 units·10 (the smaller operand is rounded
@@ -45,10 +48,12 @@ def dec16add (a b : Int) : Int :=
   else if y.natAbs < 10 then x
   else x + y.sign * (((y.natAbs + 5) / 10 * 10 : Nat) : Int)
 
-def dec16 : Arith := ⟨dec16add, fun a b => a * b / 10⟩
+def dec16 : Arith := ⟨dec16add, fun a b => a * b / 10, fun a b => if b = 0 then 0 else a * 10 / b⟩
 
 inductive UOp where
   | plus | minus | not | bitnot | paren
+  /-- the reciprocal operand `/ e` of a `*` list (`Unary(Div, e)`); evaluated alone it is `1 / e` -/
+  | div
   deriving DecidableEq, Repr, Inhabited
 
 inductive BOp where
@@ -116,8 +121,9 @@ def bv (i : Int) : BitVec 64 := BitVec.ofInt 64 i
 
 /-! ## operators (core/ops.go) -/
 
-def evalU (op : UOp) (v : Val) : Option Val :=
+def evalU (A : Arith) (op : UOp) (v : Val) : Option Val :=
   match op with
+  | .div => (toNum v).map fun i => .int (A.div 1 i)
   | .plus => match v with
     | .int i => some (.int i)
     | .bool false => some (.int 0)
@@ -171,7 +177,7 @@ def eval (A : Arith) (env : List Val) : Expr → Option Val
   | .const v => some v
   | .var i => env[i]?
   | .unary op e => match eval A env e with
-    | some v => evalU op v
+    | some v => evalU A op v
     | none => none
   | .binary op l r => match eval A env l with
     | some a => match eval A env r with
@@ -193,6 +199,11 @@ def eval (A : Arith) (env : List Val) : Expr → Option Val
     | .cat => match evalCat A env es with
       | some s => some (.str s)
       | none => none
+    | .mul => match es with
+      | [] => none
+      | e :: rest => match eval A env e with
+        | some v => evalMulDiv A env v none rest
+        | none => none
     | _ => match es with
       | [] => none
       | e :: rest => match eval A env e with
@@ -234,7 +245,29 @@ def evalCat (A : Arith) (env : List Val) : List Expr → Option Bytes
       | none => none
     | none => none
 
-/-- `+ * | & ^`: left fold; `a - b` is the operand `unary minus b` (dnum.Sub is Add of Neg) -/
+/-- `*` with reciprocal operands (codegen muldivExpr): the product of the plain operands divided
+by the product of the reciprocal ones — `a / b / c` is `a / (b * c)` -/
+def evalMulDiv (A : Arith) (env : List Val) (acc : Val) (dv : Option Val) :
+    List Expr → Option Val
+  | [] => match dv with
+    | none => some acc
+    | some d => match toNum acc, toNum d with
+      | some x, some y => some (.int (A.div x y))
+      | _, _ => none
+  | .unary .div e :: rest => match eval A env e with
+    | some v => match dv with
+      | none => evalMulDiv A env acc (some v) rest
+      | some d => match nbin A .mul d v with
+        | some r => evalMulDiv A env acc (some r) rest
+        | none => none
+    | none => none
+  | e :: rest => match eval A env e with
+    | some v => match nbin A .mul acc v with
+      | some r => evalMulDiv A env r dv rest
+      | none => none
+    | none => none
+
+/-- `+ | & ^`: left fold; `a - b` is the operand `unary minus b` (dnum.Sub is Add of Neg) -/
 def evalFold (A : Arith) (env : List Val) (op : NOp) (acc : Val) : List Expr → Option Val
   | [] => some acc
   | e :: rest => match eval A env e with
@@ -280,7 +313,7 @@ def rawOp : BOp → Bool
   | _ => true
 
 def mathU : UOp → Bool
-  | .plus | .minus | .bitnot => true
+  | .plus | .minus | .bitnot | .div => true
   | _ => false
 
 def mathB : BOp → Bool
@@ -308,7 +341,8 @@ def fUnary (op : UOp) (e : Expr) : FR :=
   match e with
   | .const c =>
     if mathU op && !isNum c then .error .literal
-    else match evalU op c with
+    else if op = .div then .ok (.unary .div (.const c))  -- a constant reciprocal is left to foldMul
+    else match evalU exactA op c with
       | some v => .ok (.const v)
       | none => .error .eval
   | e =>
@@ -411,22 +445,35 @@ def commutative (A : Arith) (op : NOp) (es : List Expr) : Except FoldErr (List E
     | none, pre, _ => .ok pre
     | some v, pre, post => .ok (pre ++ .const v :: post)
 
-/-- `foldMul` without reciprocal operands: constants multiplied together and moved to the end -/
-def mulGo (A : Arith) (m : Int) (keep : List Expr) : List Expr → Option (Int × List Expr)
-  | [] => some (m, keep)
+/-- scan of `foldMul`: product of the constant factors, product of the constant divisors, kept
+operands; `none` = a constant zero factor -/
+def mulGo (A : Arith) (m d : Int) (keep : List Expr) : List Expr → Option (Int × Int × List Expr)
+  | [] => some (m, d, keep)
+  | .unary _ (.const c) :: rest => match toNum c with
+    | some n => mulGo A m (A.mul d n) keep rest
+    | none => mulGo A m d keep rest
   | .const (.int 0) :: _ => none
   | .const c :: rest => match toNum c with
-    | some n => mulGo A (A.mul m n) keep rest
-    | none => mulGo A m keep rest
-  | e :: rest => mulGo A m (keep ++ [e]) rest
+    | some n => mulGo A (A.mul m n) d keep rest
+    | none => mulGo A m d keep rest
+  | e :: rest => mulGo A m d (keep ++ [e]) rest
 
+def unaryDivOrConstant : Expr → Bool
+  | .unary .div _ => true
+  | .const _ => true
+  | _ => false
+
+/-- `foldMul`: constants multiplied together (divisors separately) and moved to the end -/
 def foldMul (A : Arith) (es : List Expr) : List Expr :=
-  match mulGo A 1 [] es with
+  match mulGo A 1 1 [] es with
   | none => [.const (.int 0)]
-  | some (m, keep) =>
-    let es1 := if m ≠ 1 || keep.isEmpty then keep ++ [.const (.int m)] else keep
+  | some (m, d, keep) =>
+    let md : Int × Int := if d ≠ 1 && (m ≠ 1 || keep.isEmpty) then (A.div m d, 1) else (m, d)
+    let es1 :=
+      if md.2 = 1 then (if md.1 ≠ 1 || keep.isEmpty then keep ++ [.const (.int md.1)] else keep)
+      else keep ++ [.unary .div (.const (.int md.2))]
     match es1 with
-    | [e] => if isConst e then [e] else [e, .const (.int 1)]
+    | [e] => if unaryDivOrConstant e then [e] else [e, .const (.int 1)]
     | es1 => es1
 
 /-- `foldCat`: contiguous constants are concatenated (a lone constant is left as it is) -/
